@@ -52,6 +52,10 @@ def ensure(cfg):
     already extracted.  Fails closed (SystemExit 1) when the crate does not build."""
     out = fact_path(cfg)
     if os.path.exists(out) and os.path.getsize(out) > 0:
+        try:
+            os.utime(os.path.dirname(out), None)
+        except OSError:
+            pass
         return out
     os.makedirs(os.path.dirname(out), exist_ok=True)
     tmp = out + ".%d.tmp" % os.getpid()
@@ -70,12 +74,15 @@ def ensure(cfg):
     sys.stderr.write("[facts] extracted %s in %.1fs\n" % (cfg, time.time() - t0))
     # prune old cache entries (keep the 6 most recent trees)
     try:
+        here = os.path.dirname(out)
+        os.utime(here, None)
         ents = sorted(
-            (os.path.join(CACHE, d) for d in os.listdir(CACHE)),
+            (os.path.join(CACHE, d) for d in os.listdir(CACHE) if d != "target"),
             key=lambda p: os.path.getmtime(p),
         )
-        for p in ents[:-6]:
-            subprocess.run(["rm", "-rf", p])
+        for p in ents[:-8]:
+            if os.path.abspath(p) != os.path.abspath(here):
+                subprocess.run(["rm", "-rf", p])
     except OSError:
         pass
     return out
@@ -99,8 +106,13 @@ def norm_path(p):
 class Facts:
     def __init__(self, cfg):
         self.cfg = cfg
-        with open(ensure(cfg)) as fh:
-            d = json.load(fh)
+        try:
+            with open(ensure(cfg)) as fh:
+                d = json.load(fh)
+        except (FileNotFoundError, ValueError):
+            # a concurrent run pruned or was still writing the cache entry: extract again
+            with open(ensure(cfg)) as fh:
+                d = json.load(fh)
         if d.get("crate") != "rbpf":
             print("FACTGEN-FAILED: fact file is not for crate rbpf")
             raise SystemExit(2)
